@@ -8,7 +8,7 @@ import random
 
 from .. import harness as H
 from ..ref import rfc6455 as R
-from ..sim import shim
+from ..sim import net, shim
 
 SHARDS = {"quick": 8, "thorough": 16}
 META = {
@@ -125,7 +125,7 @@ APIS_DATA = ["send_str", "send_bytes_text", "send_binary", "send_bytes", "send_t
              # text given as str for a continuation fragment (the idiom of send_frame()'s docstring) / a binary frame
              "frame_contstr_fin0", "frame_contstr_fin1", "frame_binstr_fin1"]
 APIS_CTRL = ["ping_bytes", "ping_str", "pong_bytes", "pong_str", "send_ping_op", "send_pong_op",
-             "frame_ping", "frame_pong", "frame_close", "frame_pingstr", "frame_pongstr"]
+             "frame_ping", "frame_pong", "frame_close", "frame_pingstr", "frame_pongstr", "ping_bytearray", "pong_bytearray", "send_bytearray_ping"]
 APIS_CLOSE = ["close", "send_close"]
 
 
@@ -192,6 +192,11 @@ def run(res, tier, seed, shard, nshards):
         for i, n in enumerate(bigs):
             if (i + shard) % nshards == 0:
                 big_case(res, W, rng, n)
+        # a send that timed out after part of the frame had been accepted, then shutdown() and connect() on the same object: the
+        # first frame written on the new connection is that frame and nothing else
+        for i in range(18 if tier == "quick" else 300):
+            if (i + shard) % nshards == 0:
+                partial_send_then_reconnect_case(res, W, rng)
         # one ABNF object written several times (re-sent as is, and with fin/opcode/data updated per fragment):
         # every write is one well-formed frame of its own with a fresh key
         for ks in ("default", "bytes", "str"):
@@ -264,6 +269,12 @@ def one(res, W, rng, conns, L, api, ks, trace, null):
             ret = w.ping(arg); op = R.PING; ret_expected = False
         elif api in ("pong_bytes", "pong_str"):
             ret = w.pong(arg); op = R.PONG; ret_expected = False
+        elif api == "ping_bytearray":
+            ret = w.ping(bytearray(arg)); op = R.PING; ret_expected = False
+        elif api == "pong_bytearray":
+            ret = w.pong(bytearray(arg)); op = R.PONG; ret_expected = False
+        elif api == "send_bytearray_ping":
+            ret = w.send(bytearray(arg), W.ABNF.OPCODE_PING); op = R.PING
         elif api == "send_ping_op":
             ret = w.send(arg, W.ABNF.OPCODE_PING); op = R.PING
         elif api == "send_pong_op":
@@ -449,6 +460,69 @@ def tricky_text_case(res, W, rng, t):
         res.count("tricky_texts_sent")
         if _check_frame(res, f"{api}({t!r})", bytes(peer.client_stream[before:]), payload, op, fin, ret, case, api="tricky-" + api) is None:
             return
+
+
+def partial_send_then_reconnect_case(res, W, rng):
+    import socket as _socket
+    w, conn, peer = H.connected_ws(timeout=1)
+    n = rng.choice([0, 1, 5, 125, 126, 300, 70000])
+    k = rng.choice([1, 2, 3, 5, 6, 8, 13, 150])
+    err = rng.choice(["timeout", "timeout", "reset"])
+    e = _socket.timeout("timed out") if err == "timeout" else ConnectionResetError(104, "Connection reset by peer")
+
+    def plan():
+        conn.send_error = e
+        yield k
+
+    conn.write_plan = plan()
+    api = rng.choice(["send_binary", "ping", "send_close", "send_frame"])
+    try:
+        if api == "send_binary":
+            w.send_binary(rng.randbytes(n))
+        elif api == "ping":
+            w.ping(rng.randbytes(min(n, 125)))
+        elif api == "send_close":
+            w.send_close(1000, b"bye")
+        else:
+            w.send_frame(W.ABNF.create_frame(rng.randbytes(n), W.ABNF.OPCODE_BINARY, 0))
+    except Exception:  # noqa
+        pass
+    how = rng.choice(["shutdown", "close", "lost"])
+    try:
+        if how == "shutdown":
+            w.shutdown()
+        elif how == "close":
+            w.close(timeout=0.1)
+        else:
+            conn.peer_close()
+            try:
+                w.recv()
+            except Exception:  # noqa
+                pass
+    except Exception:  # noqa
+        pass
+    # second connection of the same object
+    so2, conn2 = net.pair()
+    peer2 = H.HandshakePeer(conn2)
+    case = {"gen": "partial-send-then-reconnect", "first_api": api, "first_len": n, "accepted": k, "error": err, "dropped_by": how}
+    try:
+        w.connect("ws://sim.test/again", socket=so2)
+    except Exception as x:  # noqa
+        res.violation("send-raised", f"connect() again on the same object after a partial {api} ({k} bytes, {err}) and {how}: {type(x).__name__}: {x}", case,
+                      api="reconnect-after-partial-send", exc_type=type(x).__name__)
+        return
+    payload = rng.randbytes(rng.choice([0, 3, 200]))
+    before = len(peer2.client_stream)
+    try:
+        ret = w.send_binary(payload)
+    except Exception as x:  # noqa
+        res.violation("send-raised", f"first send on the new connection after a partial {api} on the old one: {type(x).__name__}: {x}", case,
+                      api="reconnect-after-partial-send", exc_type=type(x).__name__)
+        return
+    res.case(("partial-reconnect", api, n, k, err, how))
+    res.count("sends_after_partial_send_and_reconnect")
+    _check_frame(res, f"first frame on a new connection of the same object (the old one saw {k} bytes of a {api} frame, then {err}; dropped by {how})",
+                 bytes(peer2.client_stream[before:]), payload, R.BINARY, 1, ret, case, api="reconnect-after-partial-send")
 
 
 def frame_keysrc_case(res, W, rng):
